@@ -20,7 +20,10 @@ pub fn eval(case: &str) -> Out {
                 for o in &mut stripped.output { o.witness = TxOutWitness::default(); }
                 let base = serialize(&stripped).len();
                 let mut fail = None;
-                if size != full { fail = Some("size|size() differs from the serialized length".to_string()); }
+                // lengths of the reference encoding (txgen::ref_tx: own compact-size writer), independent of the crate's encoder
+                let mut refstripped = stripped.clone(); refstripped.version = tx.version;
+                if tx_is_canonical(&tx) && (size != ref_tx(&tx).len() || weight != 3 * ref_tx(&refstripped).len() + ref_tx(&tx).len()) { fail = Some("size-vs-consensus|size()/weight() differ from the lengths of the consensus serialization (reference encoder)".to_string()); }
+                else if size != full { fail = Some("size|size() differs from the serialized length".to_string()); }
                 else if weight != 3 * base + full { fail = Some("weight|weight() differs from 3*stripped + full".to_string()); }
                 else if vsize != (weight + 3) / 4 { fail = Some("vsize|vsize() is not ceil(weight/4)".to_string()); }
                 else {
@@ -45,7 +48,8 @@ pub fn eval(case: &str) -> Out {
                 let full = serialize(&bl).len();
                 let hdr = serialize(&bl.header).len() + VarInt(bl.txdata.len() as u64).size();
                 let mut fail = None;
-                if size != full { fail = Some("block-size|Block::size() differs from the serialized length".to_string()); }
+                if bl.txdata.iter().all(tx_is_canonical) && bl.header.version < 0x8000_0000 && size != ref_block(&bl).len() { fail = Some("block-size-vs-consensus|Block::size() differs from the length of the consensus serialization (reference encoder)".to_string()); }
+                else if size != full { fail = Some("block-size|Block::size() differs from the serialized length".to_string()); }
                 else if weight != 4 * hdr + bl.txdata.iter().map(|t| t.weight()).sum::<usize>() { fail = Some("block-weight|Block::weight() formula".to_string()); }
                 Out { result: format!("ok {} {}", size, weight), pred_fail: fail }
             }
@@ -83,7 +87,7 @@ pub fn gen(rng: &mut ChaCha20Rng, n: usize, thorough: bool) -> Vec<Case> {
     for &c in counts {
         let mut tags = vec![format!("src:targeted-block-txcount{:x}", c)];
         let empty = Transaction { version: 2, lock_time: elements::LockTime::ZERO, input: vec![], output: vec![] };
-        let b = serialize(&Block { header: c01::rheader(rng, &mut tags), txdata: vec![empty; c] });
+        let b = ref_block(&Block { header: c01::rheader(rng, &mut tags), txdata: vec![empty; c] });
         let mut case = rename(c01::mk("block", &b, tags, true));
         if b.len() > 100_000 { // skip the curve-point window scan for the huge all-trivial blocks
             case.text = format!("C12 block {} - {}", c01::caps(), hex(&b));
@@ -94,7 +98,7 @@ pub fn gen(rng: &mut ChaCha20Rng, n: usize, thorough: bool) -> Vec<Case> {
         let mut tags = vec!["src:structured".to_string()];
         if k % 8 == 7 {
             let txs: Vec<Transaction> = (0..rng.gen_range(0..4)).map(|_| rtx(rng, Feat { big: false, no_witness: false }, &mut tags)).collect();
-            let b = serialize(&Block { header: c01::rheader(rng, &mut tags), txdata: txs });
+            let b = ref_block(&Block { header: c01::rheader(rng, &mut tags), txdata: txs });
             out.push(rename(c01::mk("block", &b, tags, true)));
         } else {
             let tx = rtx(rng, Feat { big: thorough || k % 5 == 0, ..f }, &mut tags);
